@@ -136,7 +136,34 @@ inline Outcome runSmootherCase(const KV& c, bool extrapolated)
         tmp2[i] = -1e300;
     }
     omp_set_num_threads(threads);
-    if (!extrapolated) {
+    if (c.getI("via_level", 0)) {
+        // through the Level interface the solver uses, on Level objects that were first initialised for the OTHER
+        // boundary mode: re-initialising a level replaces its smoother
+        o.cls("via_level_reinitialised");
+        Level& Lt = *H.levels[0];
+        Level& Lg = *Hg.levels[0];
+        for (int pass = 0; pass < 2; pass++) {
+            const bool bc = pass == 0 ? !p.dirbc : p.dirbc;
+            if (!extrapolated) {
+                Lt.initializeSmoothing(*H.geometry, *H.coefficients, bc, threads, StencilDistributionMethod::CPU_TAKE);
+                Lg.initializeSmoothing(*Hg.geometry, *Hg.coefficients, bc, threads, StencilDistributionMethod::CPU_GIVE);
+            }
+            else {
+                Lt.initializeExtrapolatedSmoothing(*H.geometry, *H.coefficients, bc, threads, StencilDistributionMethod::CPU_TAKE);
+                Lg.initializeExtrapolatedSmoothing(*Hg.geometry, *Hg.coefficients, bc, threads, StencilDistributionMethod::CPU_GIVE);
+            }
+        }
+        omp_set_num_threads(threads);
+        if (!extrapolated) {
+            Lt.smoothing(xt, f, tmp1);
+            Lg.smoothing(xg, f, tmp2);
+        }
+        else {
+            Lt.extrapolatedSmoothing(xt, f, tmp1);
+            Lg.extrapolatedSmoothing(xg, f, tmp2);
+        }
+    }
+    else if (!extrapolated) {
         SmootherTake st(g, H.levels[0]->levelCache(), *H.geometry, *H.coefficients, p.dirbc, threads);
         SmootherGive sg(Hg.levels[0]->grid(), Hg.levels[0]->levelCache(), *Hg.geometry, *Hg.coefficients, p.dirbc, threads);
         omp_set_num_threads(threads);
@@ -467,6 +494,7 @@ inline KV genSmootherCase(bool extrapolated)
     c.putI("f_kind", rweighted({4, 3, 1, 1, 1, 1}));
     c.putU("f_seed", rseed());
     c.putI("carry_bc", rbool());
+    c.putI("via_level", rweighted({4, 1}));
     c.putI("model", model);
     return c;
 }
